@@ -1111,6 +1111,10 @@ func (fv *FV) specCall(env *Env, c *SCall) Term {
 		need(3)
 		a := args()
 		return fv.eqfTerm(a[0], a[1], a[2])
+	case "eqv":
+		need(3)
+		a := args()
+		return fv.eqvTerm(a[0], a[1], a[2])
 	case "ncalls":
 		need(1)
 		return Term{S: fv.heapGet(env.st, fv.callsComp("len", "")), Sort: sInt, T: types.Typ[types.Int]}
@@ -1581,6 +1585,16 @@ func (fv *FV) eqfTerm(f, a, b Term) Term {
 	fv.declare(name, fmt.Sprintf("(declare-fun %s (Int %s %s) Bool)", name, a.Sort, b.Sort))
 	fv.assumptions["equality callbacks are pure and deterministic (uninterpreted function eqf)"] = true
 	return Term{S: app(name, f.S, a.S, b.S), Sort: sBool}
+}
+
+// eqvTerm: an equality callback with role `eqv` is an equivalence relation, encoded as equality of an uninterpreted
+// class function (reflexivity, symmetry and transitivity are then congruence, with no axioms to instantiate).
+func (fv *FV) eqvTerm(f, a, b Term) Term {
+	a, b = fv.coerce(a, b)
+	name := "eqcls$" + cleanName(a.Sort)
+	fv.declare(name, fmt.Sprintf("(declare-fun %s (Int %s) Int)", name, a.Sort))
+	fv.assumptions["equality callbacks with role eqv are pure, deterministic equivalence relations (equality of an uninterpreted class function)"] = true
+	return Term{S: eq(app(name, f.S, a.S), app(name, f.S, b.S)), Sort: sBool}
 }
 
 // declareTrace makes the components of a ghost trace known before the traced callback is first called: the
